@@ -200,8 +200,9 @@ func c16RunStreamOpt(seed uint64, src string, gIn, eIn []string, f *fault, opt *
 			return nil, fmt.Errorf("garbler did not return after abort"), true, 0, 0
 		}
 	}
-	if opt.ll != nil {
+	if opt.ll != nil || opt.verbose {
 		// long-lived objects: the evaluator goroutine must be gone before the next session
+		// (verbose: before the next line of the child protocol is written to stdout)
 		select {
 		case <-ech:
 		case <-time.After(2 * time.Second):
